@@ -114,6 +114,7 @@ type Program struct {
 	errs   []string
 	lockOut map[string]map[string][]string // govc lock: collect headers instead of consulting the lock
 	rebound []string
+	tallies *[]string // names of tally ghost maps (see tallyMaps)
 	bindIssues []bindIssue // contract clauses that no longer bind (reported as cannot-decide, verification continues)
 }
 
